@@ -244,6 +244,57 @@ func extractC07() *lean {
 		})
 	}
 	l.def("handledEnvelopes", "List String", leanStrList(handled), handled)
+
+	// protocol.handle: which handler each envelope type is dispatched to (handleASync's last argument), or "channel:<field>"
+	// when it is queued for in-order processing; and the function the list handler runs (protocol.Start)
+	var dispatch []string
+	if fd := funcDecl(handlers, "handle"); fd != nil {
+		ast.Inspect(fd, func(n ast.Node) bool {
+			cc, ok := n.(*ast.CaseClause)
+			if !ok || len(cc.List) != 1 {
+				return true
+			}
+			typ := strings.TrimPrefix(exprString(cc.List[0]), "*")
+			target := "NONE"
+			ast.Inspect(cc, func(m ast.Node) bool {
+				switch x := m.(type) {
+				case *ast.CallExpr:
+					if exprString(x.Fun) == "handleASync" && len(x.Args) == 4 {
+						target = exprString(x.Args[3])
+					}
+				case *ast.SendStmt:
+					target = "channel:" + exprString(x.Chan)
+				}
+				return true
+			})
+			dispatch = append(dispatch, typ+"->"+target)
+			return true
+		})
+	}
+	l.def("dispatch", "List String", leanStrList(dispatch), dispatch)
+	_, protoF := parseFile("network/transport/v2/protocol.go")
+	listFn := "MISSING"
+	if fd := funcDecl(protoF, "Start"); fd != nil {
+		for _, c := range c07Calls(fd, "newTransactionListHandler") {
+			if len(c.Args) == 2 {
+				listFn = exprString(c.Args[1])
+			}
+		}
+	}
+	l.def("listHandlerFunc", "String", fmt.Sprintf("%q", listFn), listFn)
+	// protocol.Configure: the gossip notifier and sender wiring
+	var wiring []string
+	if fd := funcDecl(protoF, "Configure"); fd != nil {
+		for _, c := range c07Calls(fd, "p.gManager.RegisterSender") {
+			wiring = append(wiring, "RegisterSender:"+exprString(c.Args[0]))
+		}
+		for _, c := range c07Calls(fd, "p.state.Notifier") {
+			if len(c.Args) >= 2 {
+				wiring = append(wiring, "Notifier:"+exprString(c.Args[0])+":"+exprString(c.Args[1]))
+			}
+		}
+	}
+	l.def("configureWiring", "List String", leanStrList(wiring), wiring)
 	return l
 }
 
